@@ -15,7 +15,11 @@ TIERS = {
     'thorough': dict(shards=16, cases=6000, sandbox_every=60, timeout_s=3000),
 }
 RULE = ('case = one generated program (recursive generator over all statement and '
-        'expression kinds, depth 1-4, rendered as text; 4% are non-Python texts) '
+        'expression kinds, depth 1-4, rendered as text; 4% are non-Python texts; 12% '
+        'raise a run-time error 0-8+ calls below a top-level statement, through '
+        'functions, lambdas, methods, comprehensions, recursion, builtin callbacks '
+        'or standard-library code, the reported position being compared with the '
+        'traceback of plain exec) '
         'evaluated under many permission configurations: the exact required set '
         'and ALL in the three output modes (differential against plain exec), '
         'all 256 subsets for small programs or the subsets around the required '
@@ -26,6 +30,7 @@ RULE = ('case = one generated program (recursive generator over all statement an
         'depth >= 2 and was both refused and executed at least once; distinct by '
         'program text.')
 REQUIRED_COUNTERS = ['must_refuse_checks', 'must_accept_checks', 'differential_runs',
+                     'error_reports_ok', 'error_position_checks_with_intermediate_lines',
                      'audit_exec_events', 'refused_without_exec', 'scope_checks']
 ASSUMPTIONS = [
     'CPython exec() of the same text with the same globals is the reference',
@@ -164,8 +169,13 @@ class Ref:
       with contextlib.redirect_stdout(out):
         exec(self.codeobj, g)  # pylint: disable=exec-used
     except Exception as e:  # pylint: disable=broad-except
-      lines = [f.lineno for f in traceback.extract_tb(e.__traceback__) if f.filename == REF]
+      frames = traceback.extract_tb(e.__traceback__)
+      lines = [f.lineno for f in frames if f.filename == REF]
       self.error = (type(e).__name__, lines)
+      # number of calls (program or library code) between the top-level
+      # statement that was executing and the raise
+      first = [k for k, f in enumerate(frames) if f.filename == REF][0]
+      self.error_depth = len(frames) - 1 - first
     self.stdout = out.getvalue()
     self.result = None
     if self.error is None and defined:
@@ -355,12 +365,21 @@ def check_one(ctx, info, ref, kind, arg=None, outer=None, inner=None,
         ctx.violation('error-report', 'cause',
                       f'plain exec raises {ref.error[0]}, CodeError.cause is {cause!r:.200}, '
                       f'__cause__ {e.__cause__!r:.200}', witness)
-      elif getattr(e, 'lineno', None) not in ref.error[1]:
-        ctx.violation('error-report', 'position',
-                      f'{ref.error[0]} raised at program lines {ref.error[1]}, '
+      elif getattr(e, 'lineno', None) not in (ref.error[1][0], ref.error[1][-1]):
+        # The position of an error in the program is the line of the top-level
+        # statement that was executing (what the library documents) or the
+        # innermost program line of the traceback (the other reading of
+        # "position"); a line of an intermediate call or no line is neither.
+        ctx.violation('error-report',
+                      'position' if ref.error_depth == 0 else 'position-of-error-in-called-code',
+                      f'{ref.error[0]} raised {ref.error_depth} calls below the top-level statement; '
+                      f'program lines of the traceback (outermost first) {ref.error[1]}, '
                       f'CodeError.lineno = {getattr(e, "lineno", None)!r}', witness)
       else:
         c['error_reports_ok'] += 1
+        c['error_position_checks:depth-%s' % (ref.error_depth if ref.error_depth < 9 else '9+')] += 1
+        if len(set(ref.error[1])) >= 3:
+          c['error_position_checks_with_intermediate_lines'] += 1
     return o
   if o.status != 'ok':
     special = last_kind in ('AugAssign', 'AnnAssign', 'Assign-non-name-target')
@@ -457,9 +476,15 @@ def run_case(ctx, i):
   if rng.random() < 0.04:
     return run_invalid(ctx, i)
   small = rng.random() < 0.3
-  gen = PG.ProgramGen(rng, depth=rng.choice([1, 2]) if small else rng.choice([2, 3, 3, 4]),
-                      top=(0, 1) if small else (1, 4))
-  code = gen.program()
+  if rng.random() < ctx.params.get('deep_error_share', 0.12):
+    # run-time error raised 0..8+ calls below a top-level statement
+    code = PG.deep_error_program(rng)
+    c['programs_deep_error'] += 1
+    small = False
+  else:
+    gen = PG.ProgramGen(rng, depth=rng.choice([1, 2]) if small else rng.choice([2, 3, 3, 4]),
+                        top=(0, 1) if small else (1, 4))
+    code = gen.program()
   info = Info(code)
   try:
     ref = Ref(info)
